@@ -28,6 +28,138 @@ _NullCoder _Folder
 '''.split())
 
 
+# parameter names of those helpers at the pinned snapshot: a parameter that is not listed here was added by a later edit
+KNOWN_PARAMS = {
+    '__interact_copy': 'escape_character input_filter output_filter self', '__interact_read': 'fd self', '__interact_writen': 'data fd self',
+    '_coerce_expect_re': 'r self', '_coerce_expect_string': 's self', '_coerce_send_string': 's self', '_decode': 's self',
+    '_expect_prompt': 'async_ self timeout', '_get_buffer': 'self', '_log': 'direction s self', '_log_control': 's self',
+    '_pattern_type_err': 'pattern self', '_read_incoming': 'self', '_repl_sh': 'args command non_printable_insert', '_set_buffer': 'self value',
+    '_spawn': 'args command dimensions preexec_fn self', '_spawnpty': 'args kwargs self', '_timeout': 'self timeout', '_unicode': 'self',
+    '_wrap_ptyprocess_err': '',
+}
+
+
+def _const(e):
+    if isinstance(e, ast.Constant):
+        return True
+    return isinstance(e, ast.UnaryOp) and isinstance(e.op, ast.USub) and isinstance(e.operand, ast.Constant)
+
+
+def specialise_new_params(trees, skip=()):
+    """"Parametrise method": one of the package's own helpers (KNOWN_HELPERS, which the rules read by name and which are therefore
+    not inlined) is given an extra parameter with a constant default -- `_log_control(self, s, direction='send')` -- and some
+    callers now pass another constant.  The helper itself is read with the default put in place of the parameter (that is what
+    it was before), and every call that passes a different constant goes to a copy of the helper specialised for that constant;
+    the copy is an ordinary extracted helper and is written back into its callers by the inliner.  Not done when the helper is
+    referenced other than by direct calls, when a call uses * / **, when a call passes something that is not a constant, or when
+    the body assigns the parameter."""
+    defs = {}
+    for m, t in trees.items():
+        if m in skip:
+            continue
+        for st in t.body:
+            if isinstance(st, (ast.FunctionDef, ast.AsyncFunctionDef)):
+                defs.setdefault(st.name, []).append((m, None, st, t.body))
+            elif isinstance(st, ast.ClassDef):
+                for f in st.body:
+                    if isinstance(f, (ast.FunctionDef, ast.AsyncFunctionDef)):
+                        defs.setdefault(f.name, []).append((m, st, f, st.body))
+    done = 0
+    for name in sorted(KNOWN_PARAMS):
+        if len(defs.get(name, [])) != 1:
+            continue
+        m, cls, node, owner = defs[name][0]
+        a = node.args
+        if a.vararg or a.kwarg or a.posonlyargs or a.kwonlyargs or node.decorator_list:
+            continue
+        params = [x.arg for x in a.args]
+        dflt = dict(zip(params[len(params) - len(a.defaults):], a.defaults))
+        known = set(KNOWN_PARAMS[name].split())
+        new = [q for q in params if q not in known]
+        if not new or any(q not in dflt or not _const(dflt[q]) for q in new):
+            continue
+        # new parameters must come last (a call written for the old signature still means the same)
+        if params[len(params) - len(new):] != new:
+            continue
+        mangled = ('_%s%s' % (cls.name.lstrip('_'), name)) if (cls is not None and name.startswith('__') and not name.endswith('__')) else name
+        calls, bad = [], False
+        for mm, t in trees.items():
+            if mm in skip:
+                continue
+            funcs = set()
+            for n in ast.walk(t):
+                if isinstance(n, ast.Call):
+                    f = n.func
+                    if (isinstance(f, ast.Attribute) and f.attr in (name, mangled)) or (isinstance(f, ast.Name) and f.id == name):
+                        calls.append(n)
+                        funcs.add(id(f))
+            for n in ast.walk(t):
+                if id(n) in funcs:
+                    continue
+                if (isinstance(n, ast.Attribute) and n.attr in (name, mangled)) or (isinstance(n, ast.Name) and n.id == name and isinstance(n.ctx, ast.Load)) \
+                        or (isinstance(n, ast.Constant) and n.value in (name, mangled)):
+                    bad = True
+        if bad or not calls:
+            continue
+        assigned = set(n.id for n in ast.walk(node) if isinstance(n, ast.Name) and isinstance(n.ctx, (ast.Store, ast.Del)))
+        if any(q in assigned for q in new):
+            continue
+        bound = cls is not None
+        plan = []
+        for k in calls:
+            if any(isinstance(x, ast.Starred) for x in k.args) or any(kw.arg is None for kw in k.keywords):
+                bad = True
+                break
+            is_bound = isinstance(k.func, ast.Attribute) and not (isinstance(k.func.value, ast.Name) and cls is not None and k.func.value.id == cls.name)
+            offs = 1 if (bound and is_bound) else 0
+            vals = {}
+            for q in new:
+                i = params.index(q) - offs
+                v = None
+                if 0 <= i < len(k.args):
+                    v = k.args[i]
+                for kw in k.keywords:
+                    if kw.arg == q:
+                        v = kw.value
+                if v is None:
+                    v = dflt[q]
+                if not _const(v):
+                    bad = True
+                vals[q] = v
+            plan.append((k, offs, vals))
+        if bad:
+            continue
+        clones = {}
+        for k, offs, vals in plan:
+            key = tuple((q, ast.dump(vals[q])) for q in new)
+            if all(ast.dump(vals[q]) == ast.dump(dflt[q]) for q in new):
+                continue
+            if key not in clones:
+                cl = copy.deepcopy(node)
+                tag = '_'.join('%s_%s' % (q, ''.join(ch if ch.isalnum() else '_' for ch in ast.unparse(vals[q]).strip('\'"'))) for q in new)
+                cl.name = '%s__%s' % (name, tag)
+                keep = [x for x in cl.args.args if x.arg not in new]
+                cl.args.defaults = cl.args.defaults[:len(cl.args.defaults) - len(new)]
+                cl.args.args = keep
+                sub = _Subst(dict((q, vals[q]) for q in new))
+                cl.body = [sub.visit(st) for st in cl.body]
+                owner.insert(owner.index(node) + 1, cl)
+                clones[key] = cl
+            cl = clones[key]
+            if isinstance(k.func, ast.Attribute):
+                k.func.attr = cl.name
+            else:
+                k.func.id = cl.name
+            first_new = params.index(new[0]) - offs
+            k.args = k.args[:first_new]
+            k.keywords = [kw for kw in k.keywords if kw.arg not in new]
+            done += 1
+        sub = _Subst(dict((q, dflt[q]) for q in new))
+        node.body = [sub.visit(st) for st in node.body]
+        done += 1
+    return done
+
+
 def _is_private(name):
     return name.startswith('_') and not (name.startswith('__') and name.endswith('__'))
 
@@ -412,6 +544,7 @@ def _modconst(a):
 
 
 def inline_all(trees, skip=()):
+    n_spec = specialise_new_params(trees, skip)
     inl = Inliner(dict((n, t) for n, t in trees.items() if n not in skip))
     for n, t in trees.items():
         if n not in skip:
@@ -454,4 +587,4 @@ def inline_all(trees, skip=()):
                     if isinstance(x, ast.Call) and ((isinstance(x.func, ast.Attribute) and x.func.attr == name) or (isinstance(x.func, ast.Name) and x.func.id == name)):
                         remaining.add(name)
     inline_all.opaque = remaining
-    return inl.count
+    return inl.count + n_spec
